@@ -247,13 +247,25 @@ func runGateChain(c *core.Ctx) {
 			return pol && callIs(v, core.ModulePath+".ValidClientMsg", parsed+"#0")
 		}},
 	}
-	guards := an.Guards(fn, S.Block())
+	reach, rok := an.ReachConds(fn, S.Block())
+	if !rok || len(reach) == 0 {
+		c.Unknown([]string{"C12"}, fname(c, fn), "edges", P.Pos(S.Pos()), "paths to the forward could not be enumerated")
+		return
+	}
+	c.CountPaths(len(reach))
 	for _, w := range wants {
-		found := false
-		for _, gd := range guards {
-			v, pol := stripNot(gd.V, gd.True)
-			if w.match(v, pol) {
-				found = true
+		// every way to the forward has taken the pass edge of the gate
+		found := true
+		for _, conds := range reach {
+			has := false
+			for _, gd := range conds {
+				v, pol := stripNot(gd.V, gd.True)
+				if w.match(v, pol) {
+					has = true
+				}
+			}
+			if !has {
+				found = false
 			}
 		}
 		c.CountSites(1)
@@ -578,7 +590,7 @@ func runWritePath(c *core.Ctx) {
 	var loop *ssa.Function
 	// the write loop: receives from a <-chan ServerMsg parameter and calls json.Marshal
 	for _, fn := range P.ModFuncs {
-		if fileOf(c, fn) != "relay.go" || fn.Parent() != nil || len(an.RegionCalls(fn, nil, "encoding/json.Marshal")) == 0 {
+		if !ownerTypes(c, fn)["Relay"] || fn.Parent() != nil || len(an.RegionCalls(fn, nil, "encoding/json.Marshal")) == 0 {
 			continue
 		}
 		for _, p := range fn.Params {
